@@ -7,8 +7,57 @@ WEIGHTS = {'createStudy': 4, 'getStudy': 1, 'listStudies': 2, 'deleteStudy': 4, 
            'updateMetadata': 6, 'listOptimal': 1}
 
 
+def stores_stage(c):
+  """Representation-level tie and property: raw datastore call sequences on the REAL
+  NestedDictRAMDataStore and SQLDataStore, each against its own model (Model/Stores.lean `Ram` /
+  `Sql`); on guarded sequences (trials and operations only created in existing studies, operations
+  numbered consecutively - what the service guarantees) the two real stores must answer identically."""
+  import json
+  from vcheck import stores
+  n = 60 if c.tier == 'quick' else 600
+  seqs, guarded = [], []
+  # the witness of c07_create_trial_orphan_counterexample first
+  t0 = {'id': 1, 'state': 'ACTIVE', 'client': '', 'params': 0, 'meas': [], 'final': None, 'reason': '', 'md': []}
+  seqs.append([{'op': 'createTrial', 'k': ['o', 's'], 'trial': t0}, {'op': 'createStudy', 'k': ['o', 's'], 'head': {'state': 'ACTIVE', 'spec': 0, 'md': []}},
+               {'op': 'listTrials', 'k': ['o', 's']}])
+  guarded.append(False)
+  for i in range(n):
+    g = stores.Gen(c.rng, guarded=(i % 3 != 0))
+    seqs.append(g.sequence(c.rng.randrange(5, 45)))
+    guarded.append(i % 3 != 0)
+  models = c.lean('Stores', [{'ops': s} for s in seqs])
+  for si, (s, m) in enumerate(zip(seqs, models)):
+    if 'error' in m:
+      raise core.InfraError('stores driver: %s' % m)
+    real = {}
+    for kind in ('ram', 'sql'):
+      real[kind] = stores.run_real(kind, s)
+      c.traces += 1
+      for i, (a, b) in enumerate(zip(real[kind], m[kind])):
+        c.count(1, kind='store:%s:%s' % (s[i]['op'], a if isinstance(a, str) else 'value'))
+        if a != b:
+          c.tie_break('datastore model vs real %s datastore' % kind, {'ops': s[:i + 1], 'step': i}, a, b)
+          break
+    nerr = sum(1 for x in real['ram'] if isinstance(x, str) and x.startswith('err'))
+    c.count(0, ('stores', si) if (nerr >= 1 and len(s) >= 10) else None)
+    if guarded[si]:
+      for i, (a, b) in enumerate(zip(real['ram'], real['sql'])):
+        if a != b:
+          c.prop_fail('datastores-differ:%s' % s[i]['op'],
+                      'the same datastore call sequence (as the service issues it) is answered differently by the RAM and the SQL datastore at step %d (%s): ram=%s sql=%s' % (
+                          i, s[i]['op'], json.dumps(a)[:160], json.dumps(b)[:160]),
+                      {'ops': s[:i + 1], 'ram': a, 'sql': b})
+          break
+  # the orphan witness: the flag documents which behaviour the current tree has
+  w_ram, w_sql = stores.run_real('ram', seqs[0]), stores.run_real('sql', seqs[0])
+  c.flags['sqlCreateTrialChecksStudy'] = (w_sql[0] != 'ok')
+  c.flags['ramCreateTrialChecksStudy'] = (w_ram[0] != 'ok')
+  c.sample({'store_sequence': seqs[1][:12], 'ram': models[1]['ram'][:12]})
+
+
 def run(c):
   c.proof_stage()
+  stores_stage(c)
   backends = ['ram', 'sqlmem', 'sqlfile']
   cfgs = svccheck.identify_flags(c, backends, report=('deleteCascadesOps', 'metadataAtomic'))
   n = 70 if c.tier == 'quick' else 800
@@ -17,5 +66,5 @@ def run(c):
   svc.cleanup()
   return c.finish(
       level='proof',
-      rule='stateful histories biased to delete-study/re-create, metadata updates naming missing trials, early-stopping checks and operation lookups, each replayed on RAM, sqlite:///:memory: and a SQLite file; non-trivial when >=2 of suggest/complete/deleteTrial/deleteStudy/checkEarlyStop occur',
+      rule='(a) raw datastore call sequences (stateful generator; two thirds guarded as the service issues them) on the real RAM and SQL datastores vs the representation models and vs each other; (b) stateful histories biased to delete-study/re-create, metadata updates naming missing trials, early-stopping checks and operation lookups, each replayed on RAM, sqlite:///:memory: and a SQLite file; non-trivial when >=2 of suggest/complete/deleteTrial/deleteStudy/checkEarlyStop occur',
       assumptions=['timestamps aside', 'SQLite row order = insertion order (trusted)'])
